@@ -259,3 +259,56 @@ func c17KnownRace(r string) bool {
 	}
 	return true
 }
+
+// VerifC17SioTime: the same statement with TIME as a solver variable (see cmd/mcrew's VerifC17McrewTime): a
+// timer with an arbitrary delay d1, an arbitrary wait p, then a cancel, a replacing make or a make under
+// another id with an arbitrary delay d2; the solver decides for all values which of expiry and request
+// comes first or whether they coincide.
+func VerifC17SioTime() {
+	d1 := time.Duration(verif.AnyInt("d1", 1_000_000, 500_000_000))
+	p := time.Duration(verif.AnyInt("p", 1_000_000, 500_000_000))
+	d2 := time.Duration(verif.AnyInt("d2", 1_000_000, 500_000_000))
+	c := &Crew{Conf: &CrewConf{Id: "c17t", Ctl: &core.Control{Limit: 10}}, Machines: map[string]*crew.Machine{},
+		changed: map[string]*Changed{}, previous: map[string]string{}}
+	lg := &c17log{}
+	ctx, cancel := context.WithCancel(context.Background())
+	defer cancel()
+	var ts *Timers
+	doAdd := func(id string, d time.Duration) {
+		due := time.Now().UTC().Add(d)
+		err := ts.Add(ctx, id, id, d)
+		lg.add(c17ev{kind: "add", id: id, ok: err == nil, due: due})
+	}
+	ts = NewTimers(func(ctx context.Context, te *TimerEntry) {
+		lg.add(c17ev{kind: "fire", id: te.Id})
+	})
+	ts.c = c
+	c.timers = ts
+	doAdd("t1", d1)
+	time.Sleep(p)
+	switch verif.Choose("then", 3) {
+	case 0:
+		err := ts.Cancel(ctx, "t1")
+		lg.add(c17ev{kind: "rem", id: "t1", ok: err == nil})
+	case 1:
+		doAdd("t1", d2)
+	default:
+		doAdd("t2", d2)
+	}
+	time.Sleep(2 * time.Second)
+	lg.Lock()
+	evs := append([]c17ev(nil), lg.evs...)
+	lg.Unlock()
+	pending := c17Check(evs, true)
+	verif.Assert("accepted-timer-fires", len(pending) == 0)
+	for _, id := range []string{"t1", "t2"} {
+		ts.Lock()
+		_, listed := ts.Map[id]
+		ts.Unlock()
+		verif.Assert("map-equals-pending-timers", !listed)
+	}
+	verif.Reach("time-done")
+	cancel()
+	time.Sleep(10 * time.Millisecond)
+	verif.Assert("no-goroutine-left-after-cancel", verif.Quiesce() == 0)
+}
